@@ -32,8 +32,16 @@ type c10Ref struct {
 	writes int64
 }
 
+// c10Prop is the property this run of the fault enumeration judges: C10, or C04 when the
+// driver runs it as C04's "crash" sub-run (the same crash points and recoveries, judged by the
+// chain monitors of C04 only: store-write wrappers and the full chain reload after every step).
+var c10Prop = "C10"
+
 func TestVerif_C10(t *testing.T) {
-	r := verifkit.Start("C10")
+	if os.Getenv("VERIF_PROP") == "C04" {
+		c10Prop = "C04"
+	}
+	r := verifkit.Start(c10Prop)
 	if r == nil {
 		t.Skip("not started by the /verif driver")
 	}
@@ -60,7 +68,7 @@ func TestVerif_C10(t *testing.T) {
 }
 
 func c10Setup(r *verifkit.Run, id string, w *world) (*caseState, *node, context.CancelFunc) {
-	cs := newCaseState(r, "C10", id, w)
+	cs := newCaseState(r, c10Prop, id, w)
 	ctx, cancel := context.WithCancel(context.Background())
 	n := newNode(ctx, cs)
 	return cs, n, cancel
@@ -293,6 +301,20 @@ func c10RunWithCrash(r *verifkit.Run, id string, w *world, g *gen, tape []func()
 			}
 			if cv.Height < storedNHR[2] {
 				fail("C10:committing-position-behind-store-after-restart", fmt.Sprintf("%s: committing %d, store held %d", when, cv.Height, storedNHR[2]), nil)
+			}
+		}
+		// (3a) the precommits persisted for the committing round come back as the voting
+		// view's previous commit proof: every signature in it still verifies for the
+		// height, round and hash the proof names
+		if vv.Height > w.initH && cv.Height == vv.Height-1 {
+			pset := w.set(vv.Height - 1)
+			for hash, sigs := range vv.PrevCommitProof.Proofs {
+				for _, ss := range sigs {
+					if _, okSig := verifySparse(pset, kindPrecommit, vv.Height-1, vv.PrevCommitProof.Round, hash, ss); !okSig {
+						fail("C10:previous-commit-proof-does-not-verify-after-restart", fmt.Sprintf("%s: the voting view %d/%d carries a previous commit proof for round %d (committing view is %d/%d) with a signature (key id %x, target %s) that does not verify for that round", when, vv.Height, vv.Round, vv.PrevCommitProof.Round, cv.Height, cv.Round, ss.KeyID, shortHash(hash)), nil)
+						break
+					}
+				}
 			}
 		}
 		// (3) persisted votes and proposals of the resumed rounds are present again
